@@ -5,7 +5,8 @@ ModbusClientProtocol (TCP framing, dictionary-keyed transaction manager) and
 ModbusSerClientProtocol (RTU framing, FIFO manager) attached to a recording
 transport; no reactor runs.  Events: issue a request, deliver the reply of ANY
 outstanding request (any order; alone or two replies in one chunk), deliver a
-duplicate of an already delivered reply, deliver an unsolicited reply (unused id),
+duplicate of an already delivered reply, deliver an unsolicited reply (unused id), deliver a reply or an
+unsolicited frame in two reads with other events in between,
 lose the connection (also after a local close()), issue after the loss.  The transaction-id counter starts at 0
 and at 0xFFFD so that the 16-bit wrap happens inside the history.
 Oracle: every deferred fires at most once and with the reply carrying the id written
@@ -65,6 +66,9 @@ class World(object):
         self.escaped = []
         self.connected = True
         self.closed_locally = False
+        self.partial = None
+        self.partial_used = False
+        self.last_tail = None
 
     def framing(self):
         return 'tcp' if self.variant == 'tcp' else 'rtu'
@@ -96,15 +100,31 @@ class World(object):
             self.p.dataReceived(self.reply(ev[1]) + self.reply(ev[2]))
             self.delivered.update(ev[1:])
         elif kind == 'unsol':
-            used = set(r['wire_tid'] for r in self.reqs)
-            tid = next(t for t in (0x7777, 0x7778, 0x7779, 0x777A, 0x777B, 0x777C) if t not in used)
-            self.p.dataReceived(adu.build('tcp', self.units[0], pdu.encode(dict(kind='rsp', fc=3, registers=[0xDEAD])), tid=tid))
+            self.p.dataReceived(self.unsolicited())
+        elif kind in ('rh', 'uh'):
+            # the first bytes of a frame arrive in one read, the rest in a later one
+            frame = self.reply(ev[1]) if kind == 'rh' else self.unsolicited()
+            self.partial_used = self.partial_used or kind == 'uh'
+            self.partial = (kind, ev[1] if kind == 'rh' else None, frame[5:])
+            self.p.dataReceived(frame[:5])
+        elif kind == 'tail':
+            k2, i, rest = self.partial
+            self.partial = None
+            self.last_tail = i
+            self.p.dataReceived(rest)
+            if k2 == 'rh':
+                self.delivered.add(i)
         elif kind == 'close':
             self.closed_locally = True
             self.p.close()                      # the application closes the client; the transport then reports the loss
         elif kind == 'lose':
             self.connected = False
             self.p.connectionLost('connection lost (injected)')
+
+    def unsolicited(self):
+        used = set(r['wire_tid'] for r in self.reqs)
+        tid = next(t for t in (0x7777, 0x7778, 0x7779, 0x777A, 0x777B, 0x777C) if t not in used)
+        return adu.build('tcp', self.units[0], pdu.encode(dict(kind='rsp', fc=3, registers=[0xDEAD])), tid=tid)
 
     def reply(self, i):
         r = self.reqs[i]
@@ -117,7 +137,7 @@ class World(object):
     def canon(self):
         tm = self.p.transaction
         pend = tuple(sorted(tm.transactions)) if isinstance(tm.transactions, dict) else len(tm.transactions)
-        return (self.connected, self.closed_locally, self.p._connected, tm.tid, pend,
+        return (self.connected, self.closed_locally, self.partial is not None, self.partial_used, self.p._connected, tm.tid, pend,
                 tuple((r['wire_tid'], tuple(r['events']), r['after_loss'], i in self.delivered) for i, r in enumerate(self.reqs)),
                 bytes(self.p.framer._buffer), len(self.escaped))
 
@@ -127,8 +147,16 @@ def menu(w, max_out, max_req):
     out = w.outstanding()
     if len(w.reqs) < max_req and (len(out) < max_out or not w.connected):
         ev.append(('req',))
+    if w.connected and w.partial is not None:
+        ev.append(('tail',))
+        ev.append(('lose',))
+        return ev
     if w.connected:
         if w.variant == 'tcp':
+            for i in out[:1]:
+                ev.append(('rh', i))
+            if not w.partial_used:
+                ev.append(('uh',))
             for i in out:
                 ev.append(('rep', i))
             for i in out:
@@ -170,7 +198,7 @@ def check(acc, w, hist, cfgname, units_class):
                 bad('wrong-reply', 'request %d (id %r) was completed with reply id %r registers %r' % (i, r['wire_tid'], e[1], e[2]))
         if oks and i not in w.delivered:
             bad('wrong-reply', 'request %d completed although its reply was never delivered' % i)
-        just = hist and hist[-1][0] in ('rep', 'rep2', 'dup') and i in hist[-1][1:]
+        just = hist and ((hist[-1][0] in ('rep', 'rep2', 'dup') and i in hist[-1][1:]) or (hist[-1][0] == 'tail' and i in w.delivered and w.last_tail == i))
         if just and i in w.delivered and not r['events'] and not r['after_loss'] and w.connected:
             bad('lost-deferred', 'the reply of request %d was delivered but its deferred never fired' % i)
         if not w.connected and not r['events']:
